@@ -1,4 +1,5 @@
 import PdtVerif.Lemmas.Batching
+import PdtVerif.Properties.C13
 /-!
 # C14 — batching loses nothing: buckets, loaders and collation preserve every utterance
 
@@ -342,6 +343,186 @@ theorem C14_collate_cw {ω α ι : Type} (items : List (List ω × Option (List 
     obtain ⟨it, hit, hn⟩ := List.mem_map.1 (allSome_eq_none ha)
     exact ⟨it, hit, hn⟩
 
+/-! ## collation: the optional sort is THE stable descending sort; the time-first layout -/
+
+/-- **C14_sort_stable**: Python's `sorted(seq, key=len, reverse=True)` as modelled (`sortDesc`)
+meets the specification of a stable descending sort - non-increasing keys, every class of equal
+keys in its input order - and is the ONLY list that does. -/
+theorem C14_sort_stable {α : Type} (key : α → Nat) (l : List α) :
+    IsStableDescSort key l (sortDesc key l) ∧
+    ∀ s, IsStableDescSort key l s → s = sortDesc key l :=
+  ⟨sortDesc_isStable key l, stableDescSort_unique key l⟩
+
+/-- **C14_collate_lang_stable**: with `sort=True` the (sequence, id) pairs read off the batch -
+row `n` cut to `ref_sizes[n]`, paired with `uttids[n]` - are the stable descending sort of the
+input by length: ties keep the order they had in `seq`, and no other arrangement qualifies. -/
+theorem C14_collate_lang_stable {β ι : Type} (pad : β) (items : List (List β × ι)) :
+    let out := langCollate pad true items
+    let s := List.zip (cutBack out.1 out.2.1) out.2.2
+    IsStableDescSort (fun it : List β × ι => it.1.length) items s ∧
+    ∀ s', IsStableDescSort (fun it : List β × ι => it.1.length) items s' → s' = s := by
+  intro out s
+  have hs : s = sortDesc (fun it : List β × ι => it.1.length) items := by
+    have := cutBack_padSequence_map pad (fun it : List β × ι => it.1)
+      (sortDesc (fun it => it.1.length) items)
+    show List.zip (cutBack (langCollate pad true items).1 (langCollate pad true items).2.1)
+      (langCollate pad true items).2.2 = _
+    simp only [langCollate, if_true] at this ⊢
+    rw [this, List.zip_map']
+    simp
+  rw [hs]
+  exact C14_sort_stable _ items
+
+/-- **C14_collate_spect_stable**: with `sort=True` every member of the batch follows ONE
+arrangement `s` of the utterances, and `s` is the stable descending sort by feature length (the
+only list meeting that specification): sizes, ids, feature rows cut to their sizes, and - where
+present - alignment and reference rows cut to their sizes are those of `s`, position by position. -/
+theorem C14_collate_spect_stable {φ α ρ ι : Type} (padF : φ) (padA : α) (padR : ρ)
+    (items : List (SpectItem φ α ρ ι)) :
+    ∃ s : List (SpectItem φ α ρ ι),
+      IsStableDescSort (fun it : SpectItem φ α ρ ι => it.feat.length) items s ∧
+      (∀ s', IsStableDescSort (fun it : SpectItem φ α ρ ι => it.feat.length) items s' → s' = s) ∧
+      (spectCollate padF padA padR true items).featSizes = s.map (·.feat.length) ∧
+      (spectCollate padF padA padR true items).uttids = s.map (·.uttid) ∧
+      cutBack (spectCollate padF padA padR true items).feats
+        (spectCollate padF padA padR true items).featSizes = s.map (·.feat) ∧
+      (∀ a, (spectCollate padF padA padR true items).alis = some a →
+        ∃ al : List (List α), s.map (·.ali) = al.map some ∧ cutBack a (al.map List.length) = al) ∧
+      (∀ r, (spectCollate padF padA padR true items).refs = some r →
+        ∃ rl : List (List ρ), s.map (·.ref) = rl.map some ∧ cutBack r (rl.map List.length) = rl) := by
+  refine ⟨sortDesc (fun it => it.feat.length) items, (C14_sort_stable _ items).1,
+    (C14_sort_stable _ items).2, ?_, ?_, ?_, ?_, ?_⟩
+  · simp [spectCollate]
+  · simp [spectCollate]
+  · exact cutBack_padSequence_map padF (fun it : SpectItem φ α ρ ι => it.feat) _
+  · intro a ha
+    simp only [spectCollate, if_true, Option.map_eq_some_iff] at ha
+    obtain ⟨al, h1, rfl⟩ := ha
+    exact ⟨al, allSome_eq_some h1, cutBack_padSequence padA al⟩
+  · intro r hr
+    simp only [spectCollate, if_true, Option.map_eq_some_iff] at hr
+    obtain ⟨rl, h1, rfl⟩ := hr
+    exact ⟨rl, allSome_eq_some h1, cutBack_padSequence padR rl⟩
+
+/-- ties keep their input order: "a" before "c" -/
+example : (langCollate (-100 : Int) true [([1], "a"), ([2, 3], "b"), ([4], "c")]).2.2
+    = ["b", "a", "c"] := by decide
+example : IsStableDescSort (fun it : List Nat × String => it.1.length)
+    [([1], "a"), ([2, 3], "b"), ([4], "c")] [([2, 3], "b"), ([1], "a"), ([4], "c")] := by
+  refine ⟨by decide, ?_⟩
+  intro k
+  match k with
+  | 0 => decide
+  | 1 => decide
+  | 2 => decide
+  | k + 3 => simp
+
+/-- **C14_collate_lang_tf**: `lang_seq_to_batch(.., batch_first=False)` reports the same sizes and
+ids as the batch-first call, its `refs` has `max_n R_n` time steps of `N` cells each, and read
+entry by entry (`columns`) it IS the batch-first `refs` - so every statement of
+`C14_collate_lang` / `C14_collate_lang_stable` holds of the columns of the time-first batch. -/
+theorem C14_collate_lang_tf {β ι : Type} (pad : β) (sort : Bool) (items : List (List β × ι)) :
+    (langCollateTF pad sort items).2 = (langCollate pad sort items).2 ∧
+    columns items.length (langCollateTF pad sort items).1 = (langCollate pad sort items).1 ∧
+    (∀ row ∈ (langCollateTF pad sort items).1, row.length = items.length) ∧
+    (langCollateTF pad sort items).1.length
+      = maxLen ((if sort then sortDesc (fun it => it.1.length) items else items).map (·.1)) := by
+  have hlen : ((if sort then sortDesc (fun it : List β × ι => it.1.length) items else items).map
+      (·.1)).length = items.length := by
+    cases sort
+    · simp
+    · simpa using (sortDesc_perm (fun it : List β × ι => it.1.length) items).length_eq
+  refine ⟨rfl, ?_, ?_, ?_⟩
+  · show columns items.length (padSequenceTF pad _) = padSequence pad _
+    rw [← hlen]
+    exact columns_padSequenceTF pad _
+  · intro row hr
+    rw [← hlen]
+    exact (padSequenceTF_shape pad _).2 row hr
+  · exact (padSequenceTF_shape pad _).1
+
+/-- Cut-back and padding statements directly on the time-first layout. -/
+theorem C14_collate_lang_tf_lossless {β ι : Type} [DecidableEq β] (pad : β) (sort : Bool)
+    (items : List (List β × ι)) :
+    ∃ s : List (List β × ι),
+      s.Perm items ∧ (sort = false → s = items) ∧
+      (sort = true → IsStableDescSort (fun it : List β × ι => it.1.length) items s) ∧
+      (langCollateTF pad sort items).2.1 = s.map (·.1.length) ∧
+      (langCollateTF pad sort items).2.2 = s.map (·.2) ∧
+      cutBack (columns items.length (langCollateTF pad sort items).1)
+        (langCollateTF pad sort items).2.1 = s.map (·.1) ∧
+      padCellsOk pad (columns items.length (langCollateTF pad sort items).1)
+        (langCollateTF pad sort items).2.1 = true := by
+  obtain ⟨h2, hc, _, _⟩ := C14_collate_lang_tf pad sort items
+  rw [hc, h2]
+  refine ⟨if sort then sortDesc (fun it => it.1.length) items else items, ?_, ?_, ?_, ?_, ?_, ?_, ?_⟩
+  · cases sort
+    · simp
+    · simpa using sortDesc_perm _ items
+  · intro h; simp [h]
+  · intro h; subst h; simpa using sortDesc_isStable (fun it : List β × ι => it.1.length) items
+  · simp [langCollate]
+  · simp [langCollate]
+  · exact cutBack_padSequence_map pad (fun it : List β × ι => it.1) _
+  · exact padCellsOk_padSequence_map pad (fun it : List β × ι => it.1) _
+
+example : langCollateTF (-100 : Int) true [([1], "a"), ([2, 3], "b"), ([4], "c")]
+    = ([[2, 1, 4], [3, -100, -100]], [2, 1, 1], ["b", "a", "c"]) := by decide
+example : columns 3 [[2, 1, 4], [3, -100, -100]] = [[2, 3], [1, -100], [4, -100]] := by decide
+
+/-- **C14_collate_spect_tf**: `spect_seq_to_batch(.., batch_first=False)` reports the same sizes
+and ids as the batch-first call and each padded member (`feats`, `alis`, `refs`), read entry by
+entry, is the batch-first member; `alis` / `refs` are `None` in one layout iff in the other. -/
+theorem C14_collate_spect_tf {φ α ρ ι : Type} (padF : φ) (padA : α) (padR : ρ) (sort : Bool)
+    (items : List (SpectItem φ α ρ ι)) :
+    let tf := spectCollateTF padF padA padR sort items
+    let bf := spectCollate padF padA padR sort items
+    tf.featSizes = bf.featSizes ∧ tf.refSizes = bf.refSizes ∧ tf.uttids = bf.uttids ∧
+    columns items.length tf.feats = bf.feats ∧
+    tf.alis.map (columns items.length) = bf.alis ∧
+    tf.refs.map (columns items.length) = bf.refs ∧
+    (∀ row ∈ tf.feats, row.length = items.length) := by
+  intro tf bf
+  have hlen : (if sort then sortDesc (fun it : SpectItem φ α ρ ι => it.feat.length) items
+      else items).length = items.length := by
+    cases sort
+    · simp
+    · simpa using (sortDesc_perm (fun it : SpectItem φ α ρ ι => it.feat.length) items).length_eq
+  have hopt : ∀ {γ κ : Type} (pad : κ) (f : SpectItem φ α ρ ι → Option (List κ))
+      (l : List (SpectItem φ α ρ ι)),
+      ((allSome (l.map f)).map (padSequenceTF pad)).map (columns l.length)
+        = (allSome (l.map f)).map (padSequence pad) := by
+    intro γ κ pad f l
+    cases h : allSome (l.map f) with
+    | none => rfl
+    | some v =>
+      have hv : v.length = l.length := by
+        have := congrArg List.length (allSome_eq_some h)
+        simpa using this.symm
+      simp only [Option.map_some]
+      rw [← hv, columns_padSequenceTF]
+  refine ⟨rfl, rfl, rfl, ?_, ?_, ?_, ?_⟩
+  · show columns items.length (padSequenceTF padF _) = padSequence padF _
+    have := columns_padSequenceTF padF
+      ((if sort then sortDesc (fun it : SpectItem φ α ρ ι => it.feat.length) items else items).map (·.feat))
+    rw [List.length_map, hlen] at this
+    exact this
+  · have := @hopt Unit α padA (·.ali)
+      (if sort then sortDesc (fun it : SpectItem φ α ρ ι => it.feat.length) items else items)
+    rw [hlen] at this
+    exact this
+  · have := @hopt Unit ρ padR (·.ref)
+      (if sort then sortDesc (fun it : SpectItem φ α ρ ι => it.feat.length) items else items)
+    rw [hlen] at this
+    exact this
+  · intro row hr
+    have hr' : row ∈ padSequenceTF padF
+        ((if sort then sortDesc (fun it : SpectItem φ α ρ ι => it.feat.length) items else items).map
+          (fun it => it.feat)) := hr
+    have := (padSequenceTF_shape padF _).2 row hr'
+    rw [List.length_map, hlen] at this
+    exact this
+
 /-! ## context windows -/
 
 /-- Every window index is a valid frame. -/
@@ -477,5 +658,183 @@ example : loaderBatches [3, 1, 4, 1, 5, 9, 2] 2 2 false false [0, 1, 2, 3, 4, 5,
 example : loaderLen [3, 1, 4, 1, 5, 9, 2] 2 2 false false [0, 1, 2, 3, 4, 5, 6] = .ok 4 := by rfl
 example : loaderBatches [3, 1, 4, 1, 5, 9, 2] 1 3 false true [6, 5, 4, 3, 2, 1, 0]
     = .ok ([[6, 5, 4], [3, 2, 1]], none) := by rfl
+
+/-! ## loaders: identical (seed, epoch) ⇒ identical batches; which epoch `len(loader)` refers to
+
+The loader object (`Loader`, in `Model/Batching.lean`) holds its constructor arguments and C13's
+sampler object; `serve` = one full `for batch in loader`, `setEpoch e` = `loader.epoch = e`,
+`exec` = any sequence of the two. The ordering source is `perm : epoch ↦ ordering`; for a shuffled
+loader `perm = src seed` with `src seed epoch = RandomState((seed, epoch)).permutation(N)`, so
+"depends on `perm e` only" reads "depends on (seed, epoch) only". -/
+
+/-- What a pass over an epoch with whole-data-set ordering `ordering` delivers: a function of the
+constructor arguments and that ordering alone. -/
+def epochBatches (cfg : LoaderCfg) (sc : EpochSampler.Config) (ordering : List Nat) :
+    Except Err (List (List Nat) × Option Err) :=
+  loaderBatches cfg.lens cfg.nb cfg.B cfg.dynamic cfg.drop (EpochSampler.samples sc ordering)
+
+/-- One pass: the batches are `epochBatches` of the CURRENT epoch's ordering (C13_history: what the
+sampler yields is `samples cfg (perm epoch)`), and the epoch counter moves on by one. -/
+theorem Loader.serve_spec (perm : Nat → List Nat) (l : Loader) :
+    (l.serve perm).1 = epochBatches l.cfg l.sampler.cfg (perm l.epoch) ∧
+    (l.serve perm).2 = l.setEpoch (l.epoch + 1) := by
+  have h := (EpochSampler.C13_history perm l.sampler.cfg l.sampler.epoch 0).2
+  simp only [Nat.add_zero] at h
+  refine ⟨?_, rfl⟩
+  show loaderBatches _ _ _ _ _ (EpochSampler.iter perm l.sampler).1 = _
+  have e : l.sampler = ⟨l.sampler.cfg, l.sampler.epoch⟩ := rfl
+  rw [e, h]
+  rfl
+
+/-- No operation touches the constructor arguments or the sampler's configuration. -/
+theorem Loader.exec_fixed (perm : Nat → List Nat) : ∀ (ops : List Op) (l : Loader),
+    (Loader.exec perm ops l).2.cfg = l.cfg ∧ (Loader.exec perm ops l).2.sampler.cfg = l.sampler.cfg := by
+  intro ops
+  induction ops with
+  | nil => intro l; exact ⟨rfl, rfl⟩
+  | cons op ops ih =>
+    intro l
+    cases op with
+    | serve => exact ih (l.serve perm).2
+    | setEpoch e => exact ih (l.setEpoch e)
+
+/-- **C14_seed_epoch**: take two loader objects built from the same arguments (same data, same
+parameters, same place in the process group, same ordering source = same seed), started at ANY two
+epochs and put through ANY two histories of passes and `loader.epoch = ..` assignments. Once both
+stand at epoch `e` (`loader.epoch = e`; for a loader constructed with `init_epoch = e` and not used
+yet this assignment changes nothing) their next pass delivers identical batches, namely
+`epochBatches` of the ordering of `e` - a function of (seed, epoch) and the constructor arguments,
+of nothing else. In particular rewinding `loader.epoch` replays an epoch exactly. -/
+theorem C14_seed_epoch (perm : Nat → List Nat) (cfg : LoaderCfg) (sc : EpochSampler.Config)
+    (ops₁ ops₂ : List Op) (e₁ e₂ e : Nat) :
+    let l₁ := ((Loader.exec perm ops₁ ⟨cfg, ⟨sc, e₁⟩⟩).2).setEpoch e
+    let l₂ := ((Loader.exec perm ops₂ ⟨cfg, ⟨sc, e₂⟩⟩).2).setEpoch e
+    (l₁.serve perm).1 = epochBatches cfg sc (perm e) ∧ (l₂.serve perm).1 = (l₁.serve perm).1 := by
+  intro l₁ l₂
+  have key : ∀ (ops : List Op) (e₀ : Nat),
+      ((((Loader.exec perm ops ⟨cfg, ⟨sc, e₀⟩⟩).2).setEpoch e).serve perm).1
+        = epochBatches cfg sc (perm e) := by
+    intro ops e₀
+    obtain ⟨h1, h2⟩ := Loader.exec_fixed perm ops ⟨cfg, ⟨sc, e₀⟩⟩
+    rw [(Loader.serve_spec perm _).1]
+    show epochBatches (Loader.exec perm ops _).2.cfg (Loader.exec perm ops _).2.sampler.cfg (perm e) = _
+    rw [h1, h2]
+  exact ⟨key ops₁ e₁, (key ops₂ e₂).trans (key ops₁ e₁).symm⟩
+
+/-- The same with the seed explicit: `src seed epoch` is the ordering drawn for (seed, epoch). -/
+theorem C14_seed_epoch_src (src : Nat → Nat → List Nat) (seed : Nat) (cfg : LoaderCfg)
+    (sc : EpochSampler.Config) (ops₁ ops₂ : List Op) (e₁ e₂ e : Nat) :
+    ((((Loader.exec (src seed) ops₂ ⟨cfg, ⟨sc, e₂⟩⟩).2).setEpoch e).serve (src seed)).1
+      = ((((Loader.exec (src seed) ops₁ ⟨cfg, ⟨sc, e₁⟩⟩).2).setEpoch e).serve (src seed)).1 :=
+  (C14_seed_epoch (src seed) cfg sc ops₁ ops₂ e₁ e₂ e).2
+
+/-- A loader constructed at `init_epoch = e` needs no assignment: it delivers epoch `e`. -/
+theorem C14_init_epoch (perm : Nat → List Nat) (cfg : LoaderCfg) (sc : EpochSampler.Config) (e : Nat) :
+    ((⟨cfg, ⟨sc, e⟩⟩ : Loader).serve perm).1 = epochBatches cfg sc (perm e) :=
+  (Loader.serve_spec perm _).1
+
+/-- **C14_consecutive_epochs**: `k` passes in a row from `init_epoch = e₀` deliver the epochs
+`e₀, e₀+1, .., e₀+k-1` (the sampler's lists are C13's `iterMany`, identified by
+`C13_history_lists`), and leave `loader.epoch = e₀ + k`. -/
+theorem C14_consecutive_epochs (perm : Nat → List Nat) (cfg : LoaderCfg) (sc : EpochSampler.Config)
+    (k e₀ : Nat) :
+    (Loader.exec perm (List.replicate k Op.serve) ⟨cfg, ⟨sc, e₀⟩⟩).1
+      = (List.range k).map (fun j => epochBatches cfg sc (perm (e₀ + j))) ∧
+    (Loader.exec perm (List.replicate k Op.serve) ⟨cfg, ⟨sc, e₀⟩⟩).2.epoch = e₀ + k := by
+  have h : ∀ (k e₀ : Nat),
+      (Loader.exec perm (List.replicate k Op.serve) ⟨cfg, ⟨sc, e₀⟩⟩).1
+        = (EpochSampler.iterMany perm k ⟨sc, e₀⟩).1.map
+            (fun o => loaderBatches cfg.lens cfg.nb cfg.B cfg.dynamic cfg.drop o) ∧
+      (Loader.exec perm (List.replicate k Op.serve) ⟨cfg, ⟨sc, e₀⟩⟩).2.epoch = e₀ + k := by
+    intro k
+    induction k with
+    | zero => intro e₀; exact ⟨rfl, rfl⟩
+    | succ k ih =>
+      intro e₀
+      obtain ⟨i1, i2⟩ := ih (e₀ + 1)
+      refine ⟨?_, ?_⟩
+      · show (Loader.serve perm ⟨cfg, ⟨sc, e₀⟩⟩).1
+            :: (Loader.exec perm (List.replicate k Op.serve) (Loader.serve perm ⟨cfg, ⟨sc, e₀⟩⟩).2).1 = _
+        have hs : (Loader.serve perm ⟨cfg, ⟨sc, e₀⟩⟩).2 = ⟨cfg, ⟨sc, e₀ + 1⟩⟩ := rfl
+        rw [hs, i1]
+        rfl
+      · show (Loader.exec perm (List.replicate k Op.serve) (Loader.serve perm ⟨cfg, ⟨sc, e₀⟩⟩).2).2.epoch = _
+        have hs : (Loader.serve perm ⟨cfg, ⟨sc, e₀⟩⟩).2 = ⟨cfg, ⟨sc, e₀ + 1⟩⟩ := rfl
+        rw [hs, i2]
+        omega
+  obtain ⟨h1, h2⟩ := h k e₀
+  refine ⟨?_, h2⟩
+  rw [h1, EpochSampler.C13_history_lists, List.map_map]
+  rfl
+
+/-- **C14_len_epoch**: `len(loader)` refers to the epoch the sampler stands at, i.e. to the pass
+that would start NOW: if that pass runs without an exception and yields `bs`, then `len(loader)`
+evaluated before it is `bs.length`. (With length buckets the count comes from a `Counter` over
+`get_samples_for_epoch(sampler.epoch)`, `C14_len`; with one bucket from `len(sampler)`, which is
+the number of samples by `C13_len`.) Hypotheses: a positive batch size, a sampler configuration
+`init` can produce, an ordering of the whole data set. -/
+theorem C14_len_epoch (perm : Nat → List Nat) (l : Loader) (bs : List (List Nat))
+    (hB : 0 < l.cfg.B) (hwf : l.sampler.cfg.Wf)
+    (hp : (perm l.epoch).length = l.sampler.cfg.total)
+    (h : (l.serve perm).1 = .ok (bs, none)) : l.len perm = .ok bs.length := by
+  rw [(Loader.serve_spec perm l).1] at h
+  unfold epochBatches at h
+  unfold Loader.len
+  by_cases hnb : l.cfg.nb > 1
+  · have hl := C14_loader_len l.cfg.lens l.cfg.nb l.cfg.B l.cfg.dynamic l.cfg.drop _ bs hB h
+    unfold loaderLen at hl
+    simp only [hnb, if_true] at hl ⊢
+    exact hl
+  · have hl := C14_loader_len l.cfg.lens l.cfg.nb l.cfg.B l.cfg.dynamic l.cfg.drop _ bs hB h
+    unfold loaderLen at hl
+    simp only [hnb, if_false] at hl ⊢
+    have hc := EpochSampler.C13_len l.sampler.cfg (perm l.epoch) hwf hp
+    have : (EpochSampler.len l.sampler.cfg).toNat
+        = (EpochSampler.samples l.sampler.cfg (perm l.epoch)).length := by
+      rw [← hc]; rfl
+    rw [this]
+    exact hl
+
+/-- **C14_len_tracks_epoch** (nothing is cached): after ANY history of passes and epoch
+assignments, `len(loader)` is the number of batches of the pass that starts next - so after a
+pass over epoch `e` it already speaks about epoch `e + 1`, after `loader.epoch = e'` about `e'`. -/
+theorem C14_len_tracks_epoch (perm : Nat → List Nat) (l : Loader) (ops : List Op)
+    (bs : List (List Nat)) (hB : 0 < l.cfg.B) (hwf : l.sampler.cfg.Wf)
+    (hp : ∀ e, (perm e).length = l.sampler.cfg.total)
+    (h : ((Loader.exec perm ops l).2.serve perm).1 = .ok (bs, none)) :
+    (Loader.exec perm ops l).2.len perm = .ok bs.length := by
+  obtain ⟨h1, h2⟩ := Loader.exec_fixed perm ops l
+  apply C14_len_epoch perm _ bs
+  · rw [h1]; exact hB
+  · rw [h2]; exact hwf
+  · rw [h2]; exact hp _
+  · exact h
+
+/-! ### the hypotheses are satisfiable, and the epoch matters: lengths `[1,1,5,5,5]`, 4 buckets,
+batch size 2, rank 1 of 3. Epoch 0 (ordering `0..4`) gives this rank `[1, 4]`: two batches;
+epoch 1 (ordering `[0,2,1,4,3]`) gives it `[2, 3]`: one batch. -/
+def exCfg : LoaderCfg := ⟨[1, 1, 5, 5, 5], 4, 2, false, false⟩
+def exPerm : Nat → List Nat := fun e => if e = 0 then [0, 1, 2, 3, 4] else [0, 2, 1, 4, 3]
+def exLoader : Loader := ⟨exCfg, ⟨⟨5, 5, 1, 3⟩, 0⟩⟩
+
+example : Loader.new exCfg (samplerMode false false .uneven) (some (1, 3)) 0 = some exLoader := by rfl
+example : Loader.new exCfg (samplerMode false false .raise) (some (1, 3)) 0 = none := by rfl
+example : exLoader.sampler.cfg.Wf := by simp [exLoader, EpochSampler.Config.Wf]
+example : (exLoader.serve exPerm).1 = .ok ([[1], [4]], none) := by
+  simp [Loader.serve, EpochSampler.iter, EpochSampler.samples, EpochSampler.islice,
+    EpochSampler.everyNth, exLoader, exPerm, exCfg]
+  rfl
+example : exLoader.len exPerm = .ok 2 := by
+  simp [Loader.len, EpochSampler.samples, EpochSampler.islice, EpochSampler.everyNth, exLoader,
+    exPerm, exCfg]
+  rfl
+example : ((exLoader.serve exPerm).2.serve exPerm).1 = .ok ([[2, 3]], none) := by
+  simp [Loader.serve, EpochSampler.iter, EpochSampler.samples, EpochSampler.islice,
+    EpochSampler.everyNth, exLoader, exPerm, exCfg]
+  rfl
+example : (exLoader.serve exPerm).2.len exPerm = .ok 1 := by
+  simp [Loader.len, Loader.serve, EpochSampler.iter, EpochSampler.samples, EpochSampler.islice,
+    EpochSampler.everyNth, exLoader, exPerm, exCfg]
+  rfl
 
 end PdtVerif.Batching
